@@ -564,3 +564,50 @@ V("C19", "dangling-link-written-through", "F", "R1", R + "download.py", "    if 
 V("C19", "existence-by-lexists", "S", "", R + "download.py", "    if destination.exists() or destination.is_symlink():\n", "    if os.path.lexists(destination):\n")
 V("C19", "link-test-first", "S", "", R + "download.py", "    if destination.exists() or destination.is_symlink():\n", "    if destination.is_symlink() or destination.exists():\n")
 
+# ----------------------------------------------------------------- round 7 rules
+_FIB_OLD = """    ignore_start = None
+    ignore_end = None
+    if REUSE_IGNORE_START in text:
+        ignore_start = text.index(REUSE_IGNORE_START)
+    if REUSE_IGNORE_END in text:
+        ignore_end = text.index(REUSE_IGNORE_END) + len(REUSE_IGNORE_END)
+    if ignore_start is None:
+        return text
+    if ignore_end is None:
+        return text[:ignore_start]
+    if ignore_end > ignore_start:
+        return text[:ignore_start] + filter_ignore_block(text[ignore_end:])
+    rest = text[ignore_start + len(REUSE_IGNORE_START) :]
+    if REUSE_IGNORE_END in rest:
+        ignore_end = rest.index(REUSE_IGNORE_END) + len(REUSE_IGNORE_END)
+        return text[:ignore_start] + filter_ignore_block(rest[ignore_end:])
+    return text[:ignore_start]
+"""
+
+
+def _fib(pattern, call):
+    return [(EXP, _FIB_OLD, "    return " + call + "\n"),
+            (EXP, "# Amount of bytes that we assume will be big enough", "_IGNORE_BLOCK_PATTERN = re.compile(" + pattern + ", re.DOTALL)\n\n# Amount of bytes that we assume will be big enough")]
+
+
+_GOODP = 'r"{}.*?(?:{}|\\Z)".format(re.escape(REUSE_IGNORE_START), re.escape(REUSE_IGNORE_END))'
+V2("C12", "substitution-form-correct", "S", "", _fib(_GOODP, '_IGNORE_BLOCK_PATTERN.sub("", text)'))
+V2("C12", "substitution-form-flag-as-count", "F", "R2", _fib(_GOODP, 're.sub(_IGNORE_BLOCK_PATTERN, "", text, re.DOTALL)'))
+V2("C12", "substitution-form-count-1", "F", "R2", _fib(_GOODP, '_IGNORE_BLOCK_PATTERN.sub("", text, 1)'))
+V2("C12", "substitution-form-greedy", "F", "R2", _fib('r"{}.*(?:{}|\\Z)".format(re.escape(REUSE_IGNORE_START), re.escape(REUSE_IGNORE_END))', '_IGNORE_BLOCK_PATTERN.sub("", text)'))
+V2("C12", "substitution-form-needs-end-marker", "F", "R2", _fib('r"{}.*?{}".format(re.escape(REUSE_IGNORE_START), re.escape(REUSE_IGNORE_END))', '_IGNORE_BLOCK_PATTERN.sub("", text)'))
+V2("C01", "substitution-form-correct", "S", "", _fib(_GOODP, '_IGNORE_BLOCK_PATTERN.sub("", text)'))
+# C02-R5: the bytes decoded are the bytes read
+V("C02", "window-shortened-before-decode", "F", "R5", EXP, "    rawdata = binary_file.read(size)\n", "    rawdata = binary_file.read(size)\n    rawdata = rawdata[: rawdata.rfind(b\"\\n\") + 1]\n")
+V("C02", "read-and-decode-inline", "S", "", EXP, "    rawdata = binary_file.read(size)\n    result = rawdata.decode(\"utf-8\", errors=\"replace\")\n", "    result = binary_file.read(size).decode(\"utf-8\", errors=\"replace\")\n")
+# C03-R7: VCS output is not decoded lossily
+V("C03", "vcs-names-decoded-with-replace", "F", "R7", R + "vcs.py", '            "-z",\n        ]\n        result = execute_command(command, _LOGGER, cwd=self.root)\n        all_files = result.stdout.decode("utf-8").split("\\0")\n', '            "-z",\n        ]\n        result = execute_command(command, _LOGGER, cwd=self.root)\n        all_files = result.stdout.decode("utf-8", errors="replace").split("\\0")\n')
+# C10-R9: trimmed, not rewritten
+V("C10", "contributor-value-collapsed", "F", "R9", CAP, "contributor_lines={item.strip() for item in contributors}", 'contributor_lines={" ".join(item.split()) for item in contributors}')
+# hygiene H1 / H2 on the real tree
+V("C04", "mutable-default-accumulates", "F", "H", R + "global_licensing.py", "    def _find_relevant_tomls(self, path: StrPath) -> list[ReuseTOML]:\n        found = []\n", "    def _find_relevant_tomls(self, path: StrPath, found: list = []) -> list[ReuseTOML]:\n")
+V("C03", "covered-files-as-generator", "F", "H", CAP, "all_files = [path.resolve() for path in project.all_files()]", "all_files = (path.resolve() for path in project.all_files())")
+V("C03", "covered-files-as-set", "S", "", CAP, "all_files = [path.resolve() for path in project.all_files()]", "all_files = {path.resolve() for path in project.all_files()}")
+# C14-R6 drivers
+V("C14", "container-clears-callers-licences", "F", "R6", R + "report.py", "            self.has_dep5 = bool(project.global_licensing)\n", "            self.has_dep5 = bool(project.global_licensing)\n            project.global_licensing = None\n")
+
